@@ -261,7 +261,8 @@ func (t *c01rTarget) Start(ctx context.Context, m *module.MsgMetadata, from stri
 func TestVerifC01Remote(t *testing.T) {
 	out := vh.Open("c01_remote")
 	defer out.Close()
-	port := strconv.Itoa(rand.Intn(20000) + 20000)
+	_ = rand.Intn
+	port := vsmtp.FreePort()
 	if ops := vh.Replay(); ops != nil {
 		for _, op := range ops {
 			if strings.HasPrefix(op, "C01 outcomes") {
